@@ -18,6 +18,8 @@ package segwit
 //verif:obligation fn=VerifC09Builders args=0;1;2;3;4;5 split=300 validate=6
 //verif:obligation fn=VerifC09Converse args=2,19,21;2,31,33 loops=3000 validate=20
 //verif:obligation fn=VerifC09Converse args=2,0,18;2,22,30;2,34,40;3,19,21;3,31,33 loops=4000 tier=thorough secs=2400
+//verif:bound registration converse: the fixed registration prefix (FAIL, "bcrp", version) followed by <= 5 arbitrary bytes (one push of any form, truncated pushes, extra instructions)
+//verif:obligation fn=VerifC09BCRPConverse args=4;5 validate=12
 
 import (
 	"bytes"
@@ -240,4 +242,27 @@ func VerifC09Converse(maxHead int, kLo int, kHi int) {
 		verifAssert(bytes.Equal(p, q), "register-canonical")
 	}
 	verifReach("VerifC09Converse:end")
+}
+
+// Registration programs, converse direction on the real prefix: whatever
+// IsBCRPScript accepts, ParseContract parses (recogniser and parser agree), and
+// the builder's program for the extracted contract is recognised and yields the
+// same contract again.
+func VerifC09BCRPConverse(maxBody int) {
+	p := []byte{byte(vm.OP_FAIL), byte(vm.OP_DATA_4), 'b', 'c', 'r', 'p', byte(vm.OP_DATA_1), 1}
+	p = append(p, verifBytes("body", maxBody)...)
+	is := bcrp.IsBCRPScript(p)
+	verifObserveBool("is", is)
+	if is {
+		c, err := bcrp.ParseContract(p)
+		verifAssert(err == nil && len(c) > 0, "register-recogniser-and-parser-agree")
+		if err == nil && len(c) > 0 {
+			q, err := vmutil.RegisterProgram(c)
+			verifAssert(err == nil && bcrp.IsBCRPScript(q), "register-builder-output-recognised")
+			c2, err := bcrp.ParseContract(q)
+			verifAssert(err == nil && bytes.Equal(c, c2), "register-builder-round-trips-the-contract")
+		}
+		verifReach("VerifC09BCRPConverse:accepted")
+	}
+	verifReach("VerifC09BCRPConverse:end")
 }
